@@ -159,7 +159,11 @@ pub fn note_slack(err: f64, tol: f64) {
 
 pub fn report_slack(what: &str) {
     if std::env::var_os("VX_SLACK").is_some() {
-        eprintln!("{}: largest |error| / tolerance over all toleranced comparisons = {:.4}", what, SLACK.with(|c| c.get()));
+        eprintln!(
+            "{}: largest |error| / tolerance over all toleranced comparisons = {:.4}",
+            what,
+            SLACK.with(|c| c.get())
+        );
     }
     SLACK.with(|c| c.set(0.0));
 }
